@@ -694,6 +694,36 @@ func (ex *Exec) stringsSplit(s, sep *Term) Value {
 	if !sep.IsLit() || sep.S == "" {
 		panic(engineErr("strings.Split with symbolic or empty separator"))
 	}
+	// structural case: a concatenation of literals and symbolic parts known to be free of sep
+	if len(sep.S) == 1 {
+		ok := true
+		var cur []*Term
+		var out []*Term
+		for _, p := range seqParts(s) {
+			if p.IsLit() {
+				pieces := strings.Split(p.S, sep.S)
+				for i, pc := range pieces {
+					if i > 0 {
+						out = append(out, SeqConcat(cur...))
+						cur = nil
+					}
+					if pc != "" {
+						cur = append(cur, StrLit(pc))
+					}
+				}
+				continue
+			}
+			if p.Op == "seq.unit" || !ex.knownNoContain(p, sep.S) {
+				ok = false
+				break
+			}
+			cur = append(cur, p)
+		}
+		if ok {
+			out = append(out, SeqConcat(cur...))
+			return mkSlice(out)
+		}
+	}
 	maxParts := ex.run.cfg.MaxSplit
 	n := ex.Choose(maxParts) + 1
 	base := fmt.Sprintf("split%d", ex.counters["split"])
